@@ -55,6 +55,8 @@ def _shares(ck):
     # argument is spelled as a C++ literal; both are the same code as in property bindings
     import rules.c01 as c01
     ck.rule('R13.10', 'argument values: constant folding denotes the source operators, string literals denote the source string (shared with C01, C16)')
+    ck.explanation += (' R13.10 "the same argument values": the constant folding table of C01 R1.2 and the C++ string escaper table of C16 R16.1 are re-filed here, since a '
+                       'constant or string argument of a handler statement goes through exactly that code.')
     s1 = _core.Shared(ck, 'R13.10', lambda r, k: r == 'R1.2', 'C01:', ' [a constant argument of a handler statement is folded here before it is emitted]')
     c01.run(s1)
     import rules.c16 as c16
